@@ -19,3 +19,21 @@ package model
 //@   ensures [within-the-limit-unless-cropped] r1 == nil && delta(ErrorCauseCropped) == 0 ==> len(r0) <= MaxErrorCauseSizeBytes
 //@   ensures [cropped-is-returned-as-is] r1 == nil && delta(ErrorCauseCropped) == 1 ==> r0 == lastret(ErrorCauseCropped)
 //@   ensures [cropped-at-most-once] delta(ErrorCauseCropped) <= 1
+
+// C20: "possibly shortened" — the worst-case crop cuts message and working directory to half of the budget, in bytes
+//@ const paddingForFieldNames == 4096
+//@ func cropString
+//@   requires length >= 3
+//@   modifies nothing
+//@   ensures [short-strings-untouched] len(str) <= length ==> r0 == str
+//@   ensures [cut-to-length-in-bytes] len(str) > length ==> len(r0) == length && hassuffix(r0, "...")
+//@ func (*errorCauseCompactor).cropMessage
+//@   requires c != nil
+//@   modifies c.ec.Message
+//@   ensures [worst-case-halves-the-budget] !(factor > 0) ==> len(c.ec.Message) <= 30720 && (len(old(c.ec.Message)) <= 30720 ==> c.ec.Message == old(c.ec.Message))
+//@   ensures [otherwise-untouched] factor > 0 ==> c.ec.Message == old(c.ec.Message)
+//@ func (*errorCauseCompactor).cropWorkingDir
+//@   requires c != nil
+//@   modifies c.ec.WorkingDir
+//@   ensures [worst-case-halves-the-budget] !(factor > 0) ==> len(c.ec.WorkingDir) <= 30720 && (len(old(c.ec.WorkingDir)) <= 30720 ==> c.ec.WorkingDir == old(c.ec.WorkingDir))
+//@   ensures [otherwise-untouched] factor > 0 ==> c.ec.WorkingDir == old(c.ec.WorkingDir)
